@@ -181,9 +181,14 @@ def _oneline(args):
     rows = []
     width = 2 if m.startswith('c.') else 4
     for ops in tuples:
-        rec = impl.assemble_recorded(enc.render_line(m, ops, rng) + '\n', compress=False)
+        line = enc.render_line(m, ops, rng)
+        rec = impl.assemble_recorded(line + '\n', compress=False)
         if rec['status'] == 'ok' and len(rec['out']) == width:
             rows.append(enc._row(m, ops, 'ok', int.from_bytes(rec['out'], 'little')))
+            # an operand tuple the encoder accepts stays accepted when compression is switched on
+            rc = impl.assemble_recorded(line + '\n', compress=True)
+            if rc['status'] != 'ok':
+                rows[-1].append(['refused-with-compression', line, str(rc['status'])[:200]])
         elif rec['status'] == 'ok':
             rows.append(enc._row(m, ops, 'ok', 0xffffffff))
         else:
@@ -212,11 +217,18 @@ def c06(run, scratch):
         k = 1500 if run.tier == 'quick' else 12000
         if len(tuples) > k:
             tuples = rng.sample(tuples, k)
+        if m in ('lui', 'auipc'):
+            # the upper immediate in both of its spellings (negative / 0x80000..0xfffff) around the c.lui window, for sp and its neighbours
+            tuples = tuples + [[rd, v] for rd in (0, 1, 2, 3, 8, 15) for v in (0xfffe0, 0xfffe1, 0xffff0, 0xfffff, 0xfffdf, 0x80000, 31, 32, 1, 0, -1, -32, -33)]
         jobs.append((m, tuples, rng.randrange(2**31)))
     trows = []
     with ProcessPoolExecutor(max_workers=16) as ex:
         for part in ex.map(_oneline, jobs):
             trows.extend(part)
+    for x in trows:
+        if len(x) > 6:
+            extra = x.pop()
+            run.violation('AcceptedWhenLegal', {'mnemonic': x[0], 'via': 'text, compression on'}, {'line': extra[1], 'status': extra[2], 'accepted_without_compression': True})
     _judge_rows(run, trows, scratch, want, 'text')
     # acceptance in whole programs: a pseudo-branch / j / jal whose final offset is legal is accepted wherever its documented
     # base instruction is (range edges, late-settling items in between)
